@@ -90,8 +90,10 @@ MODEL_RE = re.compile(r"/(patomic|pspinlock|prwlock)-[a-z0-9]+\.c$")
 VARIANT_FLAGS = {
     # instrumented for our own runtime (mcrt): gcc tsan instrumentation, not linked with libtsan
     "mc": ["-O1", "-g", "-fsanitize=thread", "--param", "tsan-distinguish-volatile=1",
-           "-fno-builtin-memcpy", "-fno-builtin-memset", "-fno-builtin-memmove", "-fno-inline-functions"],
-    "asan": ["-O1", "-g", "-fsanitize=address,undefined", "-fno-sanitize-recover=all", "-fno-omit-frame-pointer"],
+           "-fno-builtin-memcpy", "-fno-builtin-memset", "-fno-builtin-memmove", "-fno-inline-functions", "-ftrivial-auto-var-init=pattern"],
+    # -ftrivial-auto-var-init=pattern: a local variable that is read before it was assigned holds 0xFE.. instead of whatever the stack held,
+    # so a dropped initialisation behaves the same way every time (a wild pointer, a huge count, a "true" flag) instead of usually working
+    "asan": ["-O1", "-g", "-fsanitize=address,undefined", "-fno-sanitize-recover=all", "-fno-omit-frame-pointer", "-ftrivial-auto-var-init=pattern"],
     "plain": ["-O1", "-g"],
     "fast": ["-O2", "-g"],
     "tsan": ["-O1", "-g", "-fsanitize=thread"],
